@@ -54,6 +54,27 @@ class Driver:
             except ValueError:
                 srep, self.state_name = None, None
             self.env = GymEnvironment(OuterEnv(inner, state_representation=srep, observation_representation=make_observation_representation('default', inner.observation_space)))
+        # what happened earlier in the process: when the configuration declares more colours / types than its base, an environment of the
+        # base configuration (same shape, same maxima, other index tables) has been built, reconfigured and used before this one
+        self.predecessor = False
+        if cfg['mods'].get('more_colors') or cfg['mods'].get('more_objects'):
+            base_cfg = {'base': cfg['base'], 'mods': {k: v for k, v in cfg['mods'].items() if k not in ('more_colors', 'more_objects')}}
+            pinner = configs.build(base_cfg, seed)
+            try:
+                psrep = make_state_representation('default', pinner.state_space)
+            except ValueError:
+                psrep = None
+            pre = GymEnvironment(OuterEnv(pinner, state_representation=psrep, observation_representation=make_observation_representation('default', pinner.observation_space)))
+            for name in NAMES:
+                pre.set_observation_representation(name)
+                if psrep is not None:
+                    pre.set_state_representation(name)
+                pre.reset()
+                pre.step(0)
+            self.predecessor = True
+        # a second live instance of the same registered id (or of the same data): touching it must not be felt here
+        self.sibling = None
+        self.sibling_ops = 0
         self.obs_name = 'default'
         self.wrapper = None
         self.sh = None
@@ -177,6 +198,34 @@ class Driver:
         if self.started:
             self.check_state(self.env.state, f'after set_state_representation({name})')
 
+    def op_sibling(self, kind, i):
+        """another instance of the same id / configuration is created, seeded, reset, stepped or reconfigured"""
+        self.nops += 1
+        if self.sibling is None:
+            if self.via_registry:
+                self.sibling = gym.make(FILE_TO_ID[self.cfg['base']], disable_env_checker=True).unwrapped
+            else:
+                inner = configs.build(self.cfg, i)
+                self.sibling = GymEnvironment(OuterEnv(inner, observation_representation=make_observation_representation('default', inner.observation_space)))
+            self.sibling.outer_env.inner_env.set_seed(i + 1)
+            self.sibling.reset()
+        sib = self.sibling
+        if kind == 'seed':
+            sib.outer_env.inner_env.set_seed(i)
+        elif kind == 'reset':
+            sib.reset()
+        elif kind == 'step':
+            _, _, done, _ = sib.step(i % sib.action_space.n)
+            if done:
+                sib.reset()
+        else:
+            sib.set_observation_representation(NAMES[i % 3])
+        self.sibling_ops += 1
+        if self.started:
+            # the instance under test is untouched: its reads still describe the twin's state, its spaces its own representation
+            self.check_spaces()
+            self.check_obs(self.env.observation, f'read after the sibling instance was touched ({kind})')
+
     def _wrapper(self):
         if self.state_name is None:
             return None
@@ -227,6 +276,10 @@ class Driver:
             cl.append('state_wrapper')
         if self.action_names != ACTIONS[: len(self.action_names)]:
             cl.append('reordered_actions')
+        if self.sibling_ops and self.obs_changes:
+            cl.append('sibling_touched' + ('_registry' if self.via_registry else ''))
+        if self.predecessor and self.switches:
+            cl.append('predecessor_with_smaller_spaces')
         self.ctx.ev.case(None, nt=(self.obs_changes > 0 and self.switches > 0), classes=cl,
                          key=getattr(self, 'log', None) or [self.cfg, self.nops],
                          sample={'op_log (first 40)': getattr(self, 'log', [])[:40], 'cfg': self.cfg, 'via_registry': self.via_registry, 'ops': self.nops, 'observation_changes': self.obs_changes, 'switches': self.switches})
@@ -272,6 +325,11 @@ def machine(tier, ctx, last):
             self.op('set_state_rep', name)
 
         @built
+        @rule(kind=st.sampled_from(['seed', 'reset', 'step', 'step', 'rep']), i=st.integers(0, 7))
+        def sibling(self, kind, i):
+            self.op('sibling', kind, i)
+
+        @built
         @rule()
         def wrapped_reset(self):
             self.op('wrapped_reset')
@@ -298,13 +356,14 @@ def enum_all(tier, shard, nshards):
             i += 1
             if i % nshards == shard:
                 yield [['init', {'base': n, 'mods': {}}, 7 + i, via], ['reset'], ['step', 0], ['step', 2], ['read'], ['set_obs_rep', 'compact'], ['step', 1], ['step', 5],
-                       ['set_state_rep', 'no-overlap'], ['wrapped_step', 0], ['wrapped_reset'], ['wrapped_step', 3], ['set_obs_rep', 'default'], ['step', 4], ['read'], ['reset'], ['step', 0]]
+                       ['set_state_rep', 'no-overlap'], ['wrapped_step', 0], ['wrapped_reset'], ['wrapped_step', 3], ['set_obs_rep', 'default'], ['step', 4], ['read'], ['reset'], ['step', 0],
+                       ['sibling', 'seed', 3], ['sibling', 'step', 1], ['step', 2], ['sibling', 'reset', 0], ['step', 0], ['sibling', 'rep', 2], ['read'], ['step', 1]]
 
 
 CHECKS = [
     Check('adapter_machine', oracle, machine=machine, examples={'quick': 60, 'thorough': 200}, steps={'quick': 30, 'thorough': 50}, shards={'quick': 8, 'thorough': 16},
-          rule='rule-based machine (reset, step(i), reads, set_state/observation_representation, state-wrapper reset/step) on shipped and perturbed configurations (re-ordered action lists), direct and via registered ids, vs. a functionally driven twin',
-          required=['observation_changed', 'representation_switch', 'state_wrapper', 'registry', 'direct', 'reordered_actions']),
+          rule='rule-based machine (reset, step(i), reads, set_state/observation_representation, state-wrapper reset/step, a sibling instance of the same id touched in between; an environment of the base configuration used earlier when the spaces were extended) on shipped and perturbed configurations (re-ordered action lists), direct and via registered ids, vs. a functionally driven twin',
+          required=['observation_changed', 'representation_switch', 'state_wrapper', 'registry', 'direct', 'reordered_actions', 'sibling_touched_registry', 'predecessor_with_smaller_spaces']),
     Check('all_shipped_scripted', oracle, enumerate=enum_all, shards={'quick': 8, 'thorough': 8},
-          rule='all 22 shipped configurations directly and all 21 registered ids through the registry x a fixed 16-op script covering every adapter operation'),
+          rule='all 22 shipped configurations directly and all 21 registered ids through the registry x a fixed 24-op script covering every adapter operation, including a second live instance of the same id being seeded, stepped, reset and reconfigured in between'),
 ]
